@@ -76,6 +76,12 @@ pub fn run_program(p: &Program, k_channels: u16, capture_bt: bool, stats: &mut S
 				// channel laws against the stereo rig fed the identical program
 				for f in 0..frames {
 					let (l, r) = (a.rig.buf[2 * f], a.rig.buf[2 * f + 1]);
+					if cfg!(miri) {
+						// Miri deliberately perturbs inexact float intrinsics (powf, sin, ...) by an ulp at random, so
+						// two executions of one program are not bit-identical there; the channel laws are judged by
+						// the native engines, Miri contributes undefined-behaviour detection
+						continue;
+					}
 					if kc == 1 {
 						let m = (l + r) / 2.0;
 						if bw.rig.buf[f] != m {
@@ -159,6 +165,7 @@ pub fn excl_from(ctx: &Ctx) -> Excl {
 		zero_clock_speed: ctx.known("C01.clock_seconds_per_tick_zero"),
 		bad_slice: ctx.known("C01.slice_out_of_range_or_inverted"),
 		bad_loop: ctx.known("C01.empty_or_inverted_loop_region"),
+		small: false,
 		hits: Default::default(),
 	}
 }
@@ -168,7 +175,7 @@ pub fn run(ctx: &mut Ctx) {
 	let mut stats = Stats { callbacks: 0, frames: 0, nonzero: 0, clamped: 0, lockstep_frames: 0, creation_errors: 0 };
 	let mut ops_seen = std::collections::BTreeMap::new();
 	let mut ex = excl_from(ctx);
-	let max_ops = if ctx.engine == "miri" { 14 } else { 300 };
+	let max_ops = if ctx.engine == "miri" { 24 } else { 300 };
 	for i in 0..n {
 		if !ctx.owns("prog", i) {
 			continue;
@@ -179,7 +186,7 @@ pub fn run(ctx: &mut Ctx) {
 		}
 		let mut r = Rng::for_case(ctx.seed, 101, i);
 		let n_ops = if ctx.engine == "miri" { r.usize_in(6, max_ops) } else { r.usize_in(30, max_ops) };
-		let p = Program::gen(&mut r, &mut ex, n_ops);
+		let p = Program::gen(&mut r, &mut ex, n_ops, ctx.engine == "miri");
 		let k = match r.below(3) {
 			0 => 1u16,
 			_ => r.usize_in(3, 8) as u16,
